@@ -237,8 +237,10 @@ impl FsCommand {
     /// Moves the file from one location to another by single `fs::rename` command.
     /// Fails if target exists.
     fn move_rename(source: &Path, target: &Path) -> io::Result<()> {
-        Self::check_can_rename(source, target)?;
+        // The target can be looked up reliably only when all directories on its path exist:
+        // `new_dir/../existing_dir/file` cannot be found as long as `new_dir` is missing.
         Self::mkdirs(target.parent().unwrap())?;
+        Self::check_can_rename(source, target)?;
         Self::unsafe_rename(source, target)?;
         Ok(())
     }
@@ -246,8 +248,8 @@ impl FsCommand {
     /// Moves the file by copying it first to another location and then removing the original.
     /// Fails if target exists.
     fn move_copy(source: &Path, target: &Path) -> io::Result<()> {
-        Self::check_can_rename(source, target)?;
         Self::mkdirs(target.parent().unwrap())?;
+        Self::check_can_rename(source, target)?;
         Self::unsafe_copy(source, target)?;
         Self::remove(source)?;
         Ok(())
